@@ -185,6 +185,31 @@ def run(prop, tier, seed, known):
             for kind, src in sources('1.0 0.5 x\n'):
                 expect('load_labeled_intervals with a negative duration', lambda: IO.load_labeled_intervals(src),
                        lambda r: None if isinstance(r, tuple) and r[0].tolist() == [[1.0, 0.5]] else 'got %r' % (r,))
+            for kind, src in sources('1.0 0.5 3.0\n2.0 2.0 4.5\n'):
+                expect('load_valued_intervals with non-positive durations (convention violated, still returned in the documented form)', lambda: IO.load_valued_intervals(src),
+                       lambda r: None if isinstance(r, tuple) and isinstance(r[0], np.ndarray) and r[0].tolist() == [[1.0, 0.5], [2.0, 2.0]]
+                       and isinstance(r[1], np.ndarray) and r[1].dtype == float and r[1].tolist() == [3.0, 4.5] else 'got %r' % (r,))
+            for kind, src in sources('1.0 0.5\n'):
+                expect('load_intervals with a negative duration', lambda: IO.load_intervals(src),
+                       lambda r: None if isinstance(r, np.ndarray) and r.tolist() == [[1.0, 0.5]] else 'got %r' % (r,))
+            for kind, src in sources('2.0 a\n1.0 b\n'):
+                expect('load_labeled_events with decreasing times', lambda: IO.load_labeled_events(src),
+                       lambda r: None if isinstance(r, tuple) and isinstance(r[0], np.ndarray) and r[0].tolist() == [2.0, 1.0] and list(r[1]) == ['a', 'b'] else 'got %r' % (r,))
+            # every loader honours a non-default comment marker (and comment=None: nothing is a comment)
+            for mark_, cre_ in (('%', '%'), ('//', '//'), ('!', '!')):
+                cl_ = '%s a comment line\n' % mark_
+                for text_, call_, want_ in (
+                        (cl_ + 'C major\n', lambda s_: IO.load_key(s_, comment=cre_), lambda r: r == 'C major'),
+                        (cl_ + '60 120 0.5\n', lambda s_: IO.load_tempo(s_, comment=cre_), lambda r: isinstance(r, tuple) and r[0].tolist() == [60.0, 120.0] and r[1] == 0.5),
+                        (cl_ + '1.0 a b\n' + cl_, lambda s_: IO.load_labeled_events(s_, comment=cre_), lambda r: isinstance(r, tuple) and r[0].tolist() == [1.0] and list(r[1]) == ['a b']),
+                        (cl_ + '1.0 2.0\n', lambda s_: IO.load_intervals(s_, comment=cre_), lambda r: isinstance(r, np.ndarray) and r.tolist() == [[1.0, 2.0]]),
+                        (cl_ + '1.0 2.0 x y\n', lambda s_: IO.load_labeled_intervals(s_, comment=cre_), lambda r: isinstance(r, tuple) and r[0].tolist() == [[1.0, 2.0]] and list(r[1]) == ['x y']),
+                        (cl_ + '1.0 2.0 7.5\n', lambda s_: IO.load_valued_intervals(s_, comment=cre_), lambda r: isinstance(r, tuple) and r[0].tolist() == [[1.0, 2.0]] and r[1].tolist() == [7.5]),
+                        (cl_ + '1.0 220.0\n', lambda s_: IO.load_time_series(s_, comment=cre_), lambda r: isinstance(r, tuple) and r[0].tolist() == [1.0] and r[1].tolist() == [220.0])):
+                    for kind, src in sources(text_):
+                        expect('loader with comment marker %r (%s): %r' % (mark_, kind, text_), lambda: call_(src),
+                               lambda r, want_=want_: None if not isinstance(r, Exception) and want_(r) else 'got %r' % (r,))
+            # key / tempo
             # key / tempo
             for ks, ok in (('C major', True), ('c#\tminor', True), ('F# dorian', True), ('C Major', True), ('H major', True), ('X', False)):
                 for kind, src in sources(ks + '\n'):
